@@ -50,6 +50,12 @@ CLAIMED = {
          'parsing a framed block yields exactly the parses of the slices (any number of transactions). Model tied to the code by the correspondence '
          'run incl. the three mainnet blocks in full (merkle root, witness commitment, per-transaction re-serialisation).',
          NOTE_COMMON + 'SHA-256 is a parameter.', 'Lean 4 proof (hand model) + differential correspondence', '6/C15'),
+ 'C08': ('Kernel-checked theorems for every tree shape, depth and leaf index (no bound): the merkle root is BIP341\'s (TapLeaf 0xc0 / sorted '
+         'TapBranch), folding TapBranch over the generated path from the target leaf gives the root (through the code\'s global leaf counter), the '
+         'address program/parity are lift_x(P) + H_TapTweak(P||root)*G, and the BIP341 script-path verifier recomputes exactly that program and '
+         'parity from every generated control block. Curve facts enter as explicit hypotheses (lift_x of the key, tweak < n). Model tied to the '
+         'code by the correspondence run.', NOTE_COMMON + 'SHA-256 parameter; lift_x(internal key) and tweak < n are hypotheses of the curve-dependent theorems.',
+         'Lean 4 proof (hand model) + differential correspondence', '6/C08'),
 }
 REASONS_PENDING = 'check under construction in this session (DESIGN.md section 9 build order); will be claimed once its Lean theorems are proved and its correspondence run exists'
 
